@@ -170,6 +170,12 @@ pub struct BinOpts<'a> {
 }
 
 pub fn run_bin(opts: &BinOpts) -> BinRun {
+    run_bin_stack(opts, None)
+}
+
+/// As `run_bin`, with the main-thread stack of the child limited to `stack_kb` KiB (the tool runs
+/// its work on a thread with a stack of its own, so a small main-thread stack must not matter).
+pub fn run_bin_stack(opts: &BinOpts, stack_kb: Option<u64>) -> BinRun {
     let mut cmd = Command::new(bin_path());
     cmd.args(&opts.args).current_dir(opts.cwd).stdin(Stdio::null()).stdout(Stdio::piped()).stderr(Stdio::piped());
     cmd.env_remove("RUST_LOG");
@@ -183,6 +189,16 @@ pub fn run_bin(opts: &BinOpts) -> BinRun {
     }
     if let Some(file) = &opts.sarif_file {
         let _ = std::fs::remove_file(file);
+    }
+    if let Some(kb) = stack_kb {
+        use std::os::unix::process::CommandExt;
+        unsafe {
+            cmd.pre_exec(move || {
+                let lim = libc::rlimit { rlim_cur: (kb * 1024) as libc::rlim_t, rlim_max: (kb * 1024) as libc::rlim_t };
+                libc::setrlimit(libc::RLIMIT_STACK, &lim);
+                Ok(())
+            });
+        }
     }
     if let Some(mem) = opts.mem_limit {
         use std::os::unix::process::CommandExt;
